@@ -37,6 +37,8 @@ def gen_cases(tier, seed):
             cfgd.update(C.rare_params(rng, allow_unvalidated=True))
         case = work.mk_case(fam, [seed, k], cfgd)
         case["y0"] = "rand" if rng.random() < 0.4 else "none"
+        if fam == "NLP":
+            case["x0_zero"] = 0    # (only has an effect on specs with x-dependent sparsity patterns)
         # the shared default Params() has no iteration limit: only use it on families that converge
         case["default_params"] = bool(rng.random() < 0.25) and fam in ("QP", "NLP", "DEG")
         case["hist_len"] = int(rng.integers(3, 9))
@@ -174,6 +176,23 @@ def run_case(case):
                 try:
                     kept[1].perform_iteration(kept[0].x0, kept[0].y0)
                     bump("perform_iteration_calls")
+                except BaseException as ex:
+                    if type(ex).__name__ == "CaseTimeout":
+                        raise
+            if rng.random() < 0.5:
+                # ... or a complete solve from a different start point on the same object first
+                from ..gen import start_point
+
+                pk = kept[0]
+                xo = start_point(rng, pk.spec.var_lb, pk.spec.var_ub, on_bound_prob=0.5)
+                zl = pk.spec.meta.get("zero_lb") or []
+                for t, j in enumerate(zl):
+                    # the complementary set of variables sits at exactly 0: another stored pattern of equal size
+                    hi = pk.spec.var_ub[j] if np.isfinite(pk.spec.var_ub[j]) else 2.0
+                    xo[j] = 0.0 if t % 2 == 1 else 0.5 * hi
+                try:
+                    kept[1].solve(xo, None)
+                    bump("other_start_on_same_object")
                 except BaseException as ex:
                     if type(ex).__name__ == "CaseTimeout":
                         raise
